@@ -454,6 +454,11 @@ def scopy_case(rng, stats):
             dict(kind=KIND, sub='scopy', data=data.hex(), pos=pos, sched=sched, chunk=chunk))
 
 
+def plain_child(name):
+    """can `name` be created as an entry of a directory without leaving it"""
+    return bool(name) and name not in ('.', '..') and '/' not in name and '\x00' not in name and len(name.encode('utf8', 'replace')) <= 255
+
+
 class TmpDir:
     def __enter__(self):
         self.path = os.path.realpath(tempfile.mkdtemp(prefix='c07up_', dir=os.environ.get('VERIF_TMP')))
@@ -529,6 +534,8 @@ def gen_save_case(rng):
         safe = real_filename(raw)
         safe = core.unhs(safe) if not safe.startswith('eP') else 'x'
     except Exception:  # noqa
+        safe = 'x'
+    if not plain_child(safe):       # a faulty tree may hand back anything: the scene is built from harmless names only
         safe = 'x'
     body = bytes(rng.randrange(256) for _ in range(rng.randint(0, 20)))
     st = rng.randint(0, len(body))
@@ -656,6 +663,8 @@ def oracle_save_dir(raw, content, existing, overwrite):
             f.write(b'outside')
         u = FileUpload(BytesIOProxy(io.BytesIO(body), 4, 4 + len(content)), 'field', raw)
         name = u.filename
+        if not isinstance(name, str) or not plain_child(name):
+            return [('save-escapes', f'filename of {raw!r} is {name!r}: join(dir, filename) is not a direct child of dir')]
         if existing:
             with open(os.path.join(d, name), 'wb') as f:
                 f.write(b'old')
